@@ -409,6 +409,7 @@ def r13_7(run):
             tags = [t for t, _, _ in path_effects(p, c01.bc_classify)]
             run.ob('R13.7', bc, bc.node, 'the reply buffer is emptied when a reply or event ends [code class %s]' % c01.code_class(c), 'reset_response' in tags,
                    slot='buffer-reset[%s]' % c01.code_class(c), message='self.response is not reset after a %s reply: its text is prepended to the next single-line reply' % c01.code_class(c))
+    borrow(run, c01.r01_7, 'R13.7')
     lr = U(run, 'lineReceived')
     gl = cfg_of(lr)
     for p in gl.paths():
